@@ -398,6 +398,10 @@ func (cr *ChunkReader) parseChunkHeaderBytes(header []byte, l *int) (int64, stri
 	if err != nil {
 		return cr.handleRdrErr(err, header)
 	}
+	if sig == "" {
+		// a chunk without a signature would never be verified
+		return 0, "", 0, errInvalidChunkFormat
+	}
 
 	// read and parse the final chunk trailer and checksum
 	if chunkSize == 0 {
